@@ -76,3 +76,43 @@ Print Assumptions C05_rh.
 Print Assumptions C05_shared_none.
 Print Assumptions C05_unavailable.
 Print Assumptions C05_flag.
+
+(* ---------- concurrency dimension (topic index level; files Topics/RetainConc*.v) ----------
+   Retained publishes and clears (TopicsIndex.RetainMessage) interleaved with client subscribes / unsubscribes on
+   the same branch of the particle tree and with Messages(filter) queries for exact and wildcard filters.  Model:
+   every index operation, RetainMessage's set + store included, is one atomic step under the root lock
+   (Topics.Trie.t_step).  For every program (one list per goroutine) and EVERY schedule: the history keeps every
+   goroutine's order, every return value and every Messages result is what the map "topic -> latest retained publish"
+   gives in that serial order, and the final tree is related to the final map — so after quiescence Messages(f)
+   returns the latest retained publish of every matching topic for exact and wildcard filters alike. *)
+From MV Require Topics.IndexSpec Topics.Trie Topics.TrieRefine Topics.Lin Topics.InlineConcProofs Topics.RetainConc Topics.RetainConcProofs.
+
+Theorem C05_retain_atomic_all_schedules : forall x0 a0 prog (sched : list nat) xf restf h,
+  Topics.TrieRefine.R x0 a0 ->
+  Forall (fun c => Topics.RetainConc.wf_ropb c = true) (concat prog) ->
+  Topics.Lin.run_sched Topics.RetainConc.r_model_step sched x0 prog = (xf, restf, h) ->
+  let serial := map (fun e : nat * Topics.RetainConc.rop * N => snd (fst e)) h in
+  (forall t, Topics.Lin.proj t h ++ nth t restf [] = nth t prog []) /\
+  map snd h = snd (Topics.Lin.seq_run Topics.RetainConc.r_spec_step a0 serial) /\
+  Topics.TrieRefine.R xf (fst (Topics.Lin.seq_run Topics.RetainConc.r_spec_step a0 serial)).
+Proof. exact Topics.RetainConcProofs.retain_atomic_all_schedules. Qed.
+
+(* The split variant (root lock released after set(...), message stored afterwards) is refuted by the schedule
+   set / client unsubscribe / store: the message lands on a pruned particle; the exact filter still returns it, the
+   wildcard filter a/# never does — no serial order of the specification separates the two; the run-time checker
+   rejects that observation. *)
+Example C05_split_refuted :
+  (let '(xf, _, _) := Topics.Lin.run_sched Topics.RetainConc.rs_step [0; 1; 0]%nat Topics.InlineConcProofs.x_pre
+       [[Topics.RetainConc.RWalk Topics.InlineConcProofs.ab; Topics.RetainConc.RStore Topics.InlineConcProofs.ab (tag "m")];
+        [Topics.RetainConc.RS (Topics.RetainConc.RO (Topics.IndexSpec.OUnsub (tag "c1") Topics.InlineConcProofs.ab))]] in
+   (Topics.Trie.messages xf Topics.InlineConcProofs.ab, Topics.Trie.messages xf (tag "a/#")))
+  = ([(Topics.InlineConcProofs.ab, tag "m")], []) /\
+  Topics.RetainConc.conc_explainedg Topics.RetainConc.r_spec_step Topics.IndexSpec.a_empty
+    [(Topics.RetainConc.RO (Topics.IndexSpec.OSub (tag "c1") Topics.InlineConcProofs.ab 1), 1)]
+    [[(Topics.RetainConc.RO (Topics.IndexSpec.ORetain Topics.InlineConcProofs.ab (tag "m")), 1)];
+     [(Topics.RetainConc.RO (Topics.IndexSpec.OUnsub (tag "c1") Topics.InlineConcProofs.ab), 1)]]
+    [(Topics.RetainConc.RMsgs Topics.InlineConcProofs.ab [(Topics.InlineConcProofs.ab, tag "m")], 1);
+     (Topics.RetainConc.RMsgs (tag "a/#") [], 1)] = false.
+Proof. vm_compute. split; reflexivity. Qed.
+
+Print Assumptions C05_retain_atomic_all_schedules.
